@@ -88,6 +88,10 @@ func genC11Message(g *Gen) {
 func genC11Meta(g *Gen) {
 	g.Count("case:meta")
 	n := g.R.Range(4, 30)
+	if g.R.Chance(30) {
+		n = g.R.Range(1, 3) // tiny exports: 0-3 entries (last-batch / empty-stream boundaries)
+		g.Count("meta:tiny")
+	}
 	for j := 0; j < n; j++ {
 		slot := g.R.Range(1, 3)
 		switch g.R.Pick(4, 2, 3, 3) {
